@@ -250,6 +250,19 @@ func (w *fileWeaver) weave() {
 		case *ast.CommClause:
 			w.list(x.Body)
 		case *ast.CallExpr:
+			// sync.WaitGroup: Add/Done/Wait also update the simulator's shadow of the counter, which reports an Add
+			// that starts a new round while a Wait of the previous round has not returned (the runtime panics on
+			// that only if the timing is right)
+			if ptr, m, ok := w.wgCall(x); ok {
+				w.delRange(x.Pos(), x.Lparen+1)
+				if m == "Add" {
+					w.ins(x.Pos(), "simrt.WG"+m+"("+ptr+", ")
+				} else {
+					w.ins(x.Pos(), "simrt.WG"+m+"("+ptr)
+				}
+				w.stats["waitgroup"]++
+				return true
+			}
 			// sync.Pool: Get/Put go through the simulator's deterministic model of the pool (which buffer a Get
 			// returns would otherwise depend on the P the goroutine happens to run on and on GC timing)
 			if sel, ok := x.Fun.(*ast.SelectorExpr); ok && (sel.Sel.Name == "Get" || sel.Sel.Name == "Put") {
@@ -477,6 +490,36 @@ func mode(method string) string {
 	return "simrt.W"
 }
 
+// wgCall recognises a method call on a sync.WaitGroup: pointer expression, method name.
+func (w *fileWeaver) wgCall(e ast.Expr) (string, string, bool) {
+	call, ok := e.(*ast.CallExpr)
+	if !ok {
+		return "", "", false
+	}
+	sel, ok := call.Fun.(*ast.SelectorExpr)
+	if !ok {
+		return "", "", false
+	}
+	fn, ok := w.pkg.TypesInfo.Uses[sel.Sel].(*types.Func)
+	if !ok || fn.Pkg() == nil || fn.Pkg().Path() != "sync" {
+		return "", "", false
+	}
+	recv := fn.Type().(*types.Signature).Recv()
+	if recv == nil || !strings.HasSuffix(recv.Type().String(), "sync.WaitGroup") {
+		return "", "", false
+	}
+	switch fn.Name() {
+	case "Add", "Done", "Wait":
+	default:
+		return "", "", false
+	}
+	ptr := "(" + w.text(sel.X) + ")"
+	if _, isPtr := w.pkg.TypesInfo.TypeOf(sel.X).(*types.Pointer); !isPtr {
+		ptr = "&" + ptr
+	}
+	return ptr, fn.Name(), true
+}
+
 func (w *fileWeaver) isWaitGroupWait(e ast.Expr) bool {
 	call, ok := e.(*ast.CallExpr)
 	if !ok {
@@ -521,6 +564,9 @@ func (w *fileWeaver) stmt(outer ast.Stmt) {
 			return
 		}
 		w.simple(outer, x, "op")
+		if ptr, m, ok := w.wgCall(x.X); ok && m == "Wait" {
+			after(fmt.Sprintf("; simrt.WGLeft(%s)", ptr))
+		}
 	case *ast.SendStmt:
 		s := w.site(x.Pos(), "send")
 		before(fmt.Sprintf("simrt.Pre(%s); ", s))
@@ -612,6 +658,10 @@ func (w *fileWeaver) stmt(outer ast.Stmt) {
 		if w.isWaitGroupWait(x.Call) {
 			s := w.site(x.Pos(), "dwait")
 			w.delRange(x.Pos(), x.End())
+			if ptr, _, ok := w.wgCall(x.Call); ok {
+				w.ins(x.Pos(), fmt.Sprintf("defer func() { simrt.Pre(%s); simrt.WGWait(%s); simrt.Post(%s); simrt.WGLeft(%s) }()", s, ptr, s, ptr))
+				return
+			}
 			w.ins(x.Pos(), fmt.Sprintf("defer func() { simrt.Pre(%s); %s; simrt.Post(%s) }()", s, w.text(x.Call), s))
 			return
 		}
